@@ -52,8 +52,12 @@ func RaceStress(seed int64, iters int) int {
 		for name, q := range variants {
 			type fn func(q *pb.QuoteV4, o *validate.Options) string
 			calls := []fn{
-				func(q *pb.QuoteV4, _ *validate.Options) string { return fmt.Sprint(verify.TdxQuote(q, verifyOpts(w, false, false))) },
-				func(q *pb.QuoteV4, _ *validate.Options) string { return fmt.Sprint(verify.TdxQuote(q, verifyOpts(w, true, true))) },
+				func(q *pb.QuoteV4, _ *validate.Options) string {
+					return fmt.Sprint(verify.TdxQuote(q, verifyOpts(w, false, false)))
+				},
+				func(q *pb.QuoteV4, _ *validate.Options) string {
+					return fmt.Sprint(verify.TdxQuote(q, verifyOpts(w, true, true)))
+				},
 				func(q *pb.QuoteV4, o *validate.Options) string { return fmt.Sprint(validate.TdxQuote(q, o)) },
 				func(q *pb.QuoteV4, _ *validate.Options) string {
 					b, err := abi.QuoteToAbiBytes(q)
